@@ -40,6 +40,8 @@ MC_HOLD = [("MC_c3big.cfg", 3000, "thorough"), ("MC_c2big.cfg", 3000, "thorough"
            ("MC_live3.cfg", 900, "both"), ("MC_abs.cfg", 300, "both")]
 COVERAGE_CFGS = ("MC_c2.cfg", "MC_blk.cfg", "MC_dis.cfg", "MC_req.cfg")
 OPTIONAL_ACTIONS = ("External", "Discard", "ReqDecide", "ReqDeliver", "BWaitRead", "BWaitLocked", "PutRead")
+REQUIRED_ACTIONS = {"MC_blk.cfg": ("BWaitRead", "BWaitLocked", "PutRead"), "MC_dis.cfg": ("Discard", "PutRead"),
+                    "MC_req.cfg": ("ReqDecide", "ReqDeliver"), "MC_c2.cfg": ("PutRead",)}
 CONFIG_DOC = {
     "MC_abs.cfg": "abstract judge alone: Cap=3 MaxIdx=7 with external advances",
     "MC_c2.cfg": "Cap=2 H0=0 MaxIdx=5 MaxPuts=6, 2 producers, NonBlocking, Put-only",
@@ -142,7 +144,7 @@ def tlc_stage(ctx):
         ctx.transitions += r["transitions"]
         vlib.log("MC %s: %d distinct states, %d generated, depth %s, %.1fs" % (cfg, r["states"], r["transitions"], r.get("depth"), r["wall_s"]))
         if "The coverage statistics at" in r["out"]:
-            un = [a for a in vlib.uncovered_actions(r["out"]) if a not in OPTIONAL_ACTIONS]
+            un = [a for a in vlib.uncovered_actions(r["out"]) if a not in OPTIONAL_ACTIONS or a in REQUIRED_ACTIONS.get(cfg, ())]
             if un:
                 raise vlib.Inconclusive("vacuity guard: actions never taken in %s: %s" % (cfg, un))
     for cfg in MC_BUGS:
